@@ -37,7 +37,7 @@ CORPUS = [
 
 def run(ctx):
     C.check_deciders(ctx)
-    streams = [("converge", ctx.n(90, 1100)), ("guard", ctx.n(20, 200)), ("missing", ctx.n(10, 100))]
+    streams = [("converge", ctx.n(90, 800)), ("guard", ctx.n(20, 150)), ("missing", ctx.n(10, 100))]
     items = C.run_stream(ctx, streams, "C10")
     for case in CORPUS:                                     # regression inputs, always run
         case = dict(case, contents=dict(C.CONTENT_POOL))
